@@ -182,6 +182,9 @@ func (p *Prog) Flatten(anchors map[string]bool) ([]string, error) {
 	pick := func(callee *ssa.Function) bool {
 		return callee != nil && inMod(callee) && ssa.CanInline(callee) && !recursive[callee] && !anchors[p.AnchorName(callee)]
 	}
+	pickTail := func(c *ssa.Call, callee *ssa.Function) bool {
+		return callee != nil && inMod(callee) && ssa.CanInlineTail(c, callee) && !recursive[callee] && !anchors[p.AnchorName(callee)]
+	}
 	defer func() { p.markDeadHelpers(anchors, inMod) }()
 	var log []string
 	var funcs []*ssa.Function
@@ -192,107 +195,166 @@ func (p *Prog) Flatten(anchors map[string]bool) ([]string, error) {
 	}
 	// `go helper(args)` with a helper that is not an anchor: the goroutine's
 	// body moves back into a literal of the function that starts it
-	for _, f := range append([]*ssa.Function(nil), funcs...) {
-		if !anchors[p.AnchorName(f)] && f.Parent() == nil {
-			continue
-		}
-		// (instances of generic functions are left as they are: the rule sets
-		// look at the generic bodies)
-		top := f
-		for top.Parent() != nil {
-			top = top.Parent()
-		}
-		if o := top.Origin(); o != nil && o != top {
-			continue
-		}
-		for again := true; again; {
-			again = false
-			for _, b := range f.Blocks {
-				for _, in := range b.Instrs {
-					g, ok := in.(*ssa.Go)
-					if !ok || again {
-						continue
-					}
-					if len(g.Call.Args) == 0 {
-						continue // go func() { ... }(): the form wanted
-					}
-					if callee := g.Call.StaticCallee(); callee != nil && callee.Parent() == nil {
-						// a declared function: only helpers, not the functions rules are anchored at
-						if !inMod(callee) || recursive[callee] || anchors[p.AnchorName(callee)] || callee.Blocks == nil {
+	rehome := func() (int, error) {
+		rehomed := 0
+		for _, f := range append([]*ssa.Function(nil), funcs...) {
+			if !anchors[p.AnchorName(f)] && f.Parent() == nil {
+				continue
+			}
+			// (instances of generic functions are left as they are: the rule sets
+			// look at the generic bodies)
+			top := f
+			for top.Parent() != nil {
+				top = top.Parent()
+			}
+			if o := top.Origin(); o != nil && o != top {
+				continue
+			}
+			for again := true; again; {
+				again = false
+				for _, b := range f.Blocks {
+					for _, in := range b.Instrs {
+						g, ok := in.(*ssa.Go)
+						if !ok || again {
 							continue
 						}
+						if len(g.Call.Args) == 0 {
+							continue // go func() { ... }(): the form wanted
+						}
+						if callee := g.Call.StaticCallee(); callee != nil && callee.Parent() == nil {
+							// a declared function: only helpers, not the functions rules are anchored at
+							if !inMod(callee) || recursive[callee] || anchors[p.AnchorName(callee)] || callee.Blocks == nil {
+								continue
+							}
+						}
+						// (a literal with parameters is rehomed whatever its name: the
+						// literal that replaces it takes its place)
+						w := f.RehomeGo(g)
+						if w == nil {
+							continue
+						}
+						f.Rebuild()
+						if err := f.SanityCheck(); err != nil {
+							return rehomed, fmt.Errorf("flatten: %v", err)
+						}
+						if err := w.SanityCheck(); err != nil {
+							return rehomed, fmt.Errorf("flatten: %v", err)
+						}
+						p.srcFuncs = append(p.srcFuncs, w)
+						funcs = append(funcs, w)
+						log = append(log, fmt.Sprintf("%s <- go %s", p.FuncName(f), w.Name()))
+						again = true
+						rehomed++
 					}
-					// (a literal with parameters is rehomed whatever its name: the
-					// literal that replaces it takes its place)
-					w := f.RehomeGo(g)
-					if w == nil {
-						continue
-					}
-					f.Rebuild()
-					if err := f.SanityCheck(); err != nil {
-						return log, fmt.Errorf("flatten: %v", err)
-					}
-					if err := w.SanityCheck(); err != nil {
-						return log, fmt.Errorf("flatten: %v", err)
-					}
-					p.srcFuncs = append(p.srcFuncs, w)
-					funcs = append(funcs, w)
-					log = append(log, fmt.Sprintf("%s <- go %s", p.FuncName(f), w.Name()))
-					again = true
 				}
 			}
 		}
+		return rehomed, nil
 	}
 	// a pass may enable further inlining in functions visited earlier (a
 	// literal returned by an inlined helper becomes callable by name): repeat
-	for pass, changed := 0, true; changed && pass < 6; pass++ {
-		changed = false
-		for _, f := range funcs {
-			if !anchors[p.AnchorName(f)] && f.Parent() == nil && !strings.HasPrefix(f.Synthetic, "bound method wrapper") {
-				// a non-anchor function is only ever looked at through its inlined copies
-				continue
-			}
-			n := 0
-			for round := 0; round < 400; round++ {
-				var target *ssa.Call
-				for _, b := range f.Blocks {
-					for _, in := range b.Instrs {
-						if c, ok := in.(*ssa.Call); ok && target == nil {
-							if g, _ := ssa.StaticInlinee(c); g != f && pick(g) {
-								target = c
+	inline := func() error {
+		for pass, changed := 0, true; changed && pass < 6; pass++ {
+			changed = false
+			for _, f := range funcs {
+				if !anchors[p.AnchorName(f)] && f.Parent() == nil && !strings.HasPrefix(f.Synthetic, "bound method wrapper") {
+					// a non-anchor function is only ever looked at through its inlined copies
+					continue
+				}
+				n := 0
+				for round := 0; round < 400; round++ {
+					var target *ssa.Call
+					for _, b := range f.Blocks {
+						for _, in := range b.Instrs {
+							if c, ok := in.(*ssa.Call); ok && target == nil {
+								if g, _ := ssa.StaticInlinee(c); g != f && (pick(g) || pickTail(c, g)) {
+									target = c
+								}
 							}
 						}
 					}
+					if target == nil {
+						break
+					}
+					g, _ := ssa.StaticInlinee(target)
+					if !f.InlineCall(target) {
+						return fmt.Errorf("flatten: cannot inline %s into %s", g, f)
+					}
+					f.Rebuild()
+					log = append(log, fmt.Sprintf("%s <- %s", p.FuncName(f), p.AnchorName(g)))
+					n++
 				}
-				if target == nil {
-					break
+				if n == 0 && !(ssa.ThreadAllMerges && pass == 0) {
+					continue
 				}
-				g, _ := ssa.StaticInlinee(target)
-				if !f.InlineCall(target) {
-					return log, fmt.Errorf("flatten: cannot inline %s into %s", g, f)
+				if n > 0 {
+					changed = true
 				}
-				f.Rebuild()
-				log = append(log, fmt.Sprintf("%s <- %s", p.FuncName(f), p.AnchorName(g)))
-				n++
+				for round := 0; round < 400; round++ {
+					if f.ThreadConstantBranches(nonNil) == 0 {
+						break
+					}
+					f.Rebuild()
+				}
+				// (the duplicated test of a threaded branch is dead; without it the
+				// block that held it is an empty hop, which Rebuild removes)
+				f.DropDeadPure()
+				if f.SplitSharedReturns() {
+					f.Rebuild()
+				}
+				if err := f.SanityCheck(); err != nil {
+					return fmt.Errorf("flatten: %v", err)
+				}
 			}
-			if n == 0 && !(ssa.ThreadAllMerges && pass == 0) {
+		}
+		return nil
+	}
+	if _, err := rehome(); err != nil {
+		return log, err
+	}
+	if err := inline(); err != nil {
+		return log, err
+	}
+	// (a helper that starts the goroutine, once inlined, leaves its go statement
+	// in the anchor: that one is rehomed now)
+	// (and a local struct only ever used field by field, once its methods are
+	// inlined, is the same as one local variable per field)
+	sroa := func() (int, error) {
+		n := 0
+		for _, f := range append([]*ssa.Function(nil), funcs...) {
+			if f.Parent() != nil || len(f.Blocks) == 0 {
 				continue
 			}
-			if n > 0 {
-				changed = true
+			if !anchors[p.AnchorName(f)] && !strings.HasPrefix(f.Synthetic, "bound method wrapper") {
+				continue
 			}
-			for round := 0; round < 400; round++ {
-				if f.ThreadConstantBranches(nonNil) == 0 {
-					break
+			changed := f.SplitLocalStructs()
+			sort.Slice(changed, func(i, j int) bool { return changed[i].String() < changed[j].String() })
+			for _, g := range changed {
+				g.Relift()
+				if err := g.SanityCheck(); err != nil {
+					return n, fmt.Errorf("flatten: split structs: %v", err)
 				}
-				f.Rebuild()
+				log = append(log, fmt.Sprintf("%s: local struct split into its fields", p.FuncName(g)))
+				n++
 			}
-			if f.SplitSharedReturns() {
-				f.Rebuild()
-			}
-			if err := f.SanityCheck(); err != nil {
-				return log, fmt.Errorf("flatten: %v", err)
-			}
+		}
+		return n, nil
+	}
+	for round := 0; round < 4; round++ {
+		n, err := rehome()
+		if err != nil {
+			return log, err
+		}
+		m, err := sroa()
+		if err != nil {
+			return log, err
+		}
+		if n+m == 0 {
+			break
+		}
+		if err := inline(); err != nil {
+			return log, err
 		}
 	}
 	// a literal all of whose calls were inlined is no longer part of the program:
